@@ -281,4 +281,4 @@ def run_shard(ctx):
                 pass
         return t
 
-    ctx.run_given(mk, ctx.budget(24000, 400000))
+    ctx.run_given(mk, ctx.budget(24000, 200000))
